@@ -34,9 +34,12 @@ SYNTH_BASES = [
 ]
 
 KNOWN_UB = [
-    # (finding id, skip/fix flag, all of these substrings in stderr)
+    # aborting undefined behaviour unrelated to references: (finding id, skip flag, all of these substrings in stderr)
     ("C15-ub-misaligned-skinweight-ref", "bw", ["runtime error: reference binding to misaligned address", "GetShapeBoneWeights"]),
-    ("C15-ub-invalid-bool-copy", "fixbool", ["is not a valid value for type 'bool'", "NiBlendBoolInterpolator"]),
+]
+# recoverable UBSan reports (the asan flavour continues after invalid bool/enum loads): finding id, substrings
+KNOWN_WARN = [
+    ("C15-ub-invalid-bool-copy", ["is not a valid value for type 'bool'", "NiBlendBoolInterpolator"]),
 ]
 
 
@@ -63,7 +66,7 @@ def spec_of_case(case):
     return {"file": d["file"], "at": at, "kind": d.get("kind", "replay")}
 
 
-def par_run(binp, args, cases, env, timeout=600, min_batch=4, workers=None):
+def par_run(binp, args, cases, env, timeout=600, min_batch=4, workers=None, warnings=None, single_timeout=None):
     """vlib.run_cases_robust over chunks, in parallel; results in input order"""
     if not cases:
         return []
@@ -71,15 +74,18 @@ def par_run(binp, args, cases, env, timeout=600, min_batch=4, workers=None):
     per = max(min_batch, (len(cases) + workers * 4 - 1) // (workers * 4))
     chunks = [cases[i:i + per] for i in range(0, len(cases), per)]
     with cf.ThreadPoolExecutor(max_workers=workers) as ex:
-        res = list(ex.map(lambda ch: vlib.run_cases_robust(binp, args, ch, timeout_per_batch=timeout, batch=len(ch) + 1, env=env), chunks))
+        res = list(ex.map(lambda ch: vlib.run_cases_robust(binp, args, ch, timeout_per_batch=timeout, batch=len(ch) + 1, env=env,
+                                                           single_timeout=single_timeout, warnings=warnings), chunks))
     return [r for rs in res for r in rs]
 
 
-def run_each(binp, args, cases, env, timeout=60, workers=None):
+def run_each(binp, args, cases, env, timeout=60, workers=None, warnings=None):
     """one process per case (used where a crash is the expected outcome); [(case, line, crash)]"""
     def one(c):
         rc, lines, err = vlib.run_lines(binp, args, [c], timeout=timeout, env=env)
         if rc == 0 and len(lines) == 1:
+            if warnings is not None and "runtime error:" in err:
+                warnings.append(([c], err[-4000:]))
             return (c, lines[0], None)
         return (c, lines[0] if lines else None, {"rc": rc, "stderr": err[-6000:]})
     if not cases:
@@ -293,7 +299,7 @@ def run(tier, seed, replay=None):
     model_bin = os.environ.get("C15_MODEL_BIN") or vlib.build_model_oracle()
     rng = random.Random(seed)
     samples_dir = os.environ.get("VERIF_SAMPLES") or os.path.join(vlib.REPO, "tests", "input")
-    env = {"VERIF_SAMPLES": samples_dir, "VERIF_CASE_TIMEOUT": "60",
+    env = {"VERIF_SAMPLES": samples_dir, "VERIF_CASE_TIMEOUT": "20",
            "ASAN_OPTIONS": "detect_leaks=0:abort_on_error=0:allocator_may_return_null=1:detect_stack_use_after_return=0"}
     known = {k["id"]: k for k in rep.known}
     timings = {}
@@ -327,26 +333,39 @@ def run(tier, seed, replay=None):
         scans[f] = parse_scan(line)
         scans[f]["graphline"] = line.split(" load=0 ", 1)[1] if " load=0 " in line else ""
     # the uncorrupted file through the whole battery: anything that fails here is not caused by a reference
-    for f in list(scans):
-        flags = []
+    warnings = []
+
+    def baseline(f):
+        flags, out = [], []
         for _ in range(len(KNOWN_UB) + 1):
             case = battery_line({"file": f, "at": [], "kind": "baseline"}, flags)
-            (_, line, crash), = run_each(impl_bin, ["corrupt"], [case], env, timeout=240)
+            (_, line, crash), = run_each(impl_bin, ["corrupt"], [case], env, timeout=240, warnings=warnings)
             if crash is None:
-                break
+                return flags, out, True
             hit = None
             for kid, flag, pats in KNOWN_UB:
                 if flag not in flags and all(p in crash["stderr"] for p in pats):
                     hit = (kid, flag)
             ctx = {"op": "battery", "stderr": crash["stderr"], "case": case}
             if hit and hit[0] in known and known_match(known[hit[0]], ctx):
-                rep.known_finding(hit[0], case)
+                out.append(("known", hit[0], case))
                 flags.append(hit[1])
                 continue
-            rep.violation("the battery fails on the UNCORRUPTED sample (sanitizer/abort/timeout)",
-                          {"case": case, "family": "corrupt", "crash": crash})
+            out.append(("violation", case, crash))
+            return flags, out, False
+        return flags, out, False
+
+    with cf.ThreadPoolExecutor(max_workers=vlib.NPROC) as ex:
+        bres0 = list(ex.map(baseline, list(scans)))
+    for f, (flags, out, ok) in zip(list(scans), bres0):
+        for o in out:
+            if o[0] == "known":
+                rep.known_finding(o[1], o[2])
+            else:
+                rep.violation("the battery fails on the UNCORRUPTED sample (sanitizer/abort/timeout) [%s]" % crash_site(o[2]),
+                              {"case": o[1], "family": "corrupt", "crash": o[2]})
+        if not ok:
             del scans[f]
-            break
         file_flags[f] = flags
     timings["scan_baseline_s"] = round(time.time() - t0, 1)
 
@@ -411,7 +430,21 @@ def run(tier, seed, replay=None):
         s["sort_diverges"] = m.get("sortv", "").startswith("D")
         s["ntg"] = [x for x in m.get("ntgd", "").split(",") if x]
         s["battery_case"] = battery_line(s, s["flags"], s["sort_diverges"], s["ntg"])
-    bres = par_run(impl_bin, ["corrupt"], [s["battery_case"] for s in ready], env, timeout=900)
+    # a first slice decides whether the tree is badly broken: then the rest would only multiply watchdog time
+    order = list(range(len(ready)))
+    random.Random(seed + 2).shuffle(order)
+    first = sorted(order[:min(len(order), 320)])
+    rest = sorted(order[len(first):])
+    part1 = par_run(impl_bin, ["corrupt"], [ready[i]["battery_case"] for i in first], env, timeout=900, warnings=warnings, single_timeout=40)
+    ncrash1 = sum(1 for (_, l, cr) in part1 if cr is not None or l is None)
+    skipped_after_slice = 0
+    if ncrash1 >= 12 and not replay:
+        skipped_after_slice = len(rest)
+        rest = []
+    part2 = par_run(impl_bin, ["corrupt"], [ready[i]["battery_case"] for i in rest], env, timeout=900, warnings=warnings, single_timeout=40)
+    bmap = dict(zip(first + rest, part1 + part2))
+    ready = [ready[i] for i in sorted(bmap)]
+    bres = [bmap[i] for i in sorted(bmap)]
     mism, specfails = [], []
     nontriv = set()
     kinds = {}
@@ -489,6 +522,16 @@ def run(tier, seed, replay=None):
         rep.violation("correspondence corrupt (Coq traversal models vs NifFile/NiHeader on dumped graphs) no longer holds: " + mism[0]["what"][:160],
                       {"broken": "correspondence:corrupt", "family": "corrupt", "cases": mism[:10]}, found_input=False)
 
+    # recoverable UBSan reports (invalid bool/enum loads do not abort the asan flavour)
+    warn_sigs = {}
+    for (wcases, text) in warnings:
+        for sig in set(re.findall(r"([\w./]+:\d+:\d+: runtime error: [^\n]{0,120})", text)):
+            sig = sig.split("/")[-1]
+            warn_sigs[sig] = warn_sigs.get(sig, 0) + 1
+        for kid, pats in KNOWN_WARN:
+            ctx = {"op": "battery", "stderr": text, "case": wcases[0]}
+            if all(p in text for p in pats) and kid in known and known_match(known[kid], ctx):
+                rep.known_finding(kid, wcases[0])
     nfields = {f: len(scans[f]["fields"]) for f in scans}
     cov.update({
         "evaluations": len(specs),
@@ -505,6 +548,8 @@ def run(tier, seed, replay=None):
         "parent_walk_divergence_predicted": len(div_ntg), "parent_walk_divergence_confirmed_hang": confirmed_ntg,
         "parent_walk_confirmations_run": len(conf_ntg),
         "timings": timings,
+        "battery_cases_not_run_after_a_crashing_first_slice": skipped_after_slice,
+        "recoverable_ubsan_reports": warn_sigs,
         "unproved": UNPROVED,
         "trusted_base": vlib.BASE_TRUSTED + [
             "memory safety / absence of undefined behaviour is OBSERVED (ASan+UBSan, watchdog) on the enumerated corruptions only; no Coq model exhibits it",
@@ -522,12 +567,11 @@ UNPROVED = []
 
 
 def flag_str(flags):
-    """load-time work-around flags (every op)"""
-    return " fixbool=1" if "fixbool" in flags else ""
+    return ""
 
 
 def battery_line(spec, flags, sort_diverges=False, ntg=()):
-    sk = [f for f in flags if f != "fixbool"] + (["sort"] if sort_diverges else [])
+    sk = list(flags) + (["sort"] if sort_diverges else [])
     return "%s %s kind=%s%s%s%s" % (op_name(spec, "battery"), spec_str(spec), spec.get("kind", "replay"), flag_str(flags),
                                     (" skip=" + ",".join(sk)) if sk else "", (" skipntg=" + ",".join(ntg)) if ntg else "")
 
